@@ -126,6 +126,98 @@ def make_prop_script(idx, seed, kmin, kmax):
     return p, "\n".join(lines) + "\n", queries
 
 
+class _EufProblem:
+    logic = "QF_UF"
+    def __init__(self, nc):
+        self.decls = ["(declare-sort U 0)"] + [f"(declare-fun c{i} () U)" for i in range(nc)] + ["(declare-fun f (U) U)", "(declare-fun g (U U) U)",
+                                                                                                  "(declare-fun p (U) Bool)"]
+    def set_logic(self):
+        return "(set-logic QF_UF)"
+
+
+def make_euf_script(idx, seed, kmin, kmax):
+    """equalities over uninterpreted terms, made unsatisfiable by denying a consequence of congruence closure; the equalities are
+    split over the groups, so the interpolant has to speak about shared terms (every EUF interpolation algorithm, also `random`)"""
+    rng = random.Random(f"c08-euf-{seed}-{idx}-{kmin}")
+    nc = rng.randint(3, 6)
+    p = _EufProblem(nc)
+    consts = [f"c{i}" for i in range(nc)]
+    def term(d):
+        r = rng.random()
+        if d == 0 or r < 0.45:
+            return rng.choice(consts)
+        if r < 0.8:
+            return ("f", term(d - 1))
+        return ("g", term(d - 1), term(d - 1))
+    def txt(t):
+        return t if isinstance(t, str) else "(" + t[0] + " " + " ".join(txt(x) for x in t[1:]) + ")"
+    eqs = []
+    for _ in range(rng.randint(5, 10)):
+        a, b = term(2), term(2)
+        if a != b:
+            eqs.append((a, b))
+    # congruence closure over all subterms
+    terms = set()
+    def sub(t):
+        terms.add(t)
+        if not isinstance(t, str):
+            for x in t[1:]:
+                sub(x)
+    for a, b in eqs:
+        sub(a); sub(b)
+    for c in consts:
+        sub(("f", c))
+    par = {t: t for t in terms}
+    def find(t):
+        while par[t] != t:
+            par[t] = par[par[t]]; t = par[t]
+        return t
+    for a, b in eqs:
+        par[find(a)] = find(b)
+    changed = True
+    while changed:
+        changed = False
+        apps = [t for t in terms if not isinstance(t, str)]
+        for i, s1 in enumerate(apps):
+            for s2 in apps[i + 1:]:
+                if s1[0] == s2[0] and len(s1) == len(s2) and find(s1) != find(s2) and all(find(x) == find(y) for x, y in zip(s1[1:], s2[1:])):
+                    par[find(s1)] = find(s2); changed = True
+    classes = {}
+    for t in terms:
+        classes.setdefault(find(t), []).append(t)
+    big = [c for c in classes.values() if len(c) >= 2]
+    alg = [0, 2, 3][idx % 3]
+    opts = [":print-success true", ":produce-interpolants true", f":interpolation-euf-algorithm {alg}"]
+    if rng.random() < 0.4:
+        opts.append(f":random-seed {rng.randint(1, 1000)}")
+    lines = [f"(set-option {o})" for o in opts] + [p.set_logic()] + p.decls
+    active, nm = [], 0
+    for a, b in eqs:
+        nm += 1
+        t = f"(= {txt(a)} {txt(b)})"
+        lines.append(f"(assert (! {t} :named N{nm}))"); active.append((t, f"N{nm}"))
+    if big:
+        cl = rng.choice(big)
+        a, b = rng.sample(cl, 2)
+        nm += 1
+        t = f"(not (= {txt(a)} {txt(b)}))" if rng.random() < 0.7 else f"(and (p {txt(a)}) (not (p {txt(b)})))"
+        lines.append(f"(assert (! {t} :named N{nm}))"); active.append((t, f"N{nm}"))
+    lines.append("(check-sat)")
+    queries = []
+    names = [n for _, n in active]
+    for _ in range(2):
+        if len(names) < max(2, kmin):
+            break
+        k = rng.randint(kmin, min(kmax, len(names)))
+        pool = names[:]
+        rng.shuffle(pool)
+        cut = sorted(rng.sample(range(1, len(pool)), k - 1))
+        groups = [pool[x:y] for x, y in zip([0] + cut, cut + [len(pool)])]
+        lines.append("(get-interpolants " + " ".join(g[0] if len(g) == 1 else "(and " + " ".join(g) + ")" for g in groups) + ")")
+        queries.append((len(lines) - 1, groups, active))
+    return p, "\n".join(lines) + "\n", queries
+
+
 def from_file(path):
     """a corpus script in the one-command-per-line format: queries and active assertions are read off the text"""
     script = open(path).read()
@@ -171,7 +263,7 @@ def decide(decls, logic_line, texts, binary, stats):
 def run_case(args):
     idx, seed, binary, kmin, kmax = args
     if isinstance(idx, tuple):
-        p, script, queries = make_prop_script(idx[1], seed, kmin, kmax)
+        p, script, queries = (make_euf_script if idx[0] == "euf" else make_prop_script)(idx[1], seed, kmin, kmax)
     else:
         p, script, queries = from_file(idx) if isinstance(idx, str) else make_script(idx, seed, kmin, kmax)
     out, err, rc = runner.run_opensmt(binary, script, None, timeout=30)
@@ -571,7 +663,7 @@ def run(tier, pid="C08"):
     with mp.Pool(min(common.JOBS, 14)) as pool:
         corpus = sorted(str(f) for f in (common.VERIF / "corpus" / pid).glob("*.smt2"))
         nprop = 48 if tier == "quick" else 1200
-        results = pool.map(run_case, [(i, chk.seed, binary, kmin, kmax) for i in corpus + list(range(n)) + [("prop", j) for j in range(nprop)]],
+        results = pool.map(run_case, [(i, chk.seed, binary, kmin, kmax) for i in corpus + list(range(n)) + [("prop", j) for j in range(nprop)] + [("euf", j) for j in range(nprop)]],
                            chunksize=2)
     stats, itps, queries = {}, 0, 0
     for r in results:
